@@ -6,6 +6,11 @@ pub mod coq;
 pub mod rng;
 pub mod fixtures;
 pub mod qx;
+pub mod hist;
+pub mod crashfs;
+pub mod walcodec;
+pub mod aggworld;
+pub mod http;
 
 pub use rng::Rng;
 
